@@ -17,7 +17,7 @@ H = 4
 DELTA = 0.01
 BOUNDS = {'quick': 'die height 4 (then transposed: width 4), die extent on the other axis and all region boundaries on that axis '
                    'symbolic breakpoints 0<b1<...<W (gaps in [0.01,250]); k<=1 region on 16 placements x 3 kinds (blockage, '
-                   'specialised, fixed module) and k=2 regions on 14 placements with <=3 breakpoints; k=3 regions at concrete places in all 60 mixed orders of the tags #/dsp/bram/fixed; bands from {full, lower, middle, upper, lower half, upper half}; '
+                   'specialised, fixed module) and k=2 regions on 14 placements with <=3 breakpoints; k=3 regions at concrete places in all 60 mixed orders of the tags #/dsp/bram/fixed; region lists of every length 4..8 at concrete places (20 cases); bands from {full, lower, middle, upper, lower half, upper half}; '
                    'negative harness: one region sticking out, two regions overlapping; binary64 kernel: decimal coordinates n/10, n/100 with n < 2^8 (2^10-2^11 thorough)',
           'thorough': 'k=2 on all generated placements over <=3 breakpoints (3 tag pairs) and a sample of the placements over 4 breakpoints (two band pairs); k=3 symbolic on 3 stacked/side-by-side placements; decimal kernel with n < 2^10..2^11'}
 ASSUMPTIONS = ['R model; tolerances preset 1e-10/1e-5; distinct boundary coordinates differ by >= 0.01',
@@ -100,6 +100,15 @@ def cases(tier):
             continue
         cs.append(dict(kind='valid', nb=6, gaps=[1.0, 2.0, 0.5, 1.5, 1.0, 2.0], transposed=len(cs) % 2,
                        regions=[[0, 1, 'lower', tags[0]], [2, 3, 'full', tags[1]], [4, 6, 'upper', tags[2]]]))
+    # region lists of every length 4..8 (concrete geometry: the length and the last tag of the list are what vary)
+    for n in range(4, 9):
+        for last in ('#', 'dsp'):
+            for with_fixed in (0, 1):
+                tg = ['dsp', '#', 'bram']
+                regs = [[2 * i, 2 * i + 1, ('lower', 'full', 'upper')[i % 3], (tg[i % 3] if i < n - 1 else last)] for i in range(n)]
+                if with_fixed:
+                    regs.insert(1, [2 * n, 2 * n + 1, 'middle', 'fixed'])
+                cs.append(dict(kind='valid', nb=2 * n + 2, gaps=[1.0, 2.0, 0.5, 1.5] * ((2 * n + 5) // 4), transposed=(n + with_fixed) % 2, regions=regs))
     # one region sticking out of the die
     for band in ('full', 'lower'):
         for kind in KINDS:
